@@ -301,12 +301,12 @@ class OpGen:
                 self.feats.add("typename.on_object")
             for fname in self.object_fields(t, depth):
                 sels.append(self.field(t, fname, depth))
-            if "frag.inline.on_same_type" in self.dirty and rng.random() < 0.3:
+            if rng.random() < 0.08:
                 fs = self.object_fields(t, 0)
                 if fs:
                     sels.append("... on %s { %s }" % (t.name, " ".join(self.field(t, f, 0, force_alias=True) for f in fs)))
                     self.feats.add("frag.inline.on_same_type")
-            if "frag.inline.no_condition" in self.dirty and rng.random() < 0.3:
+            if rng.random() < 0.08:
                 fs = self.object_fields(t, 0)
                 if fs:
                     sels.append("... { %s }" % " ".join(self.field(t, f, 0, force_alias=True) for f in fs))
